@@ -152,8 +152,42 @@ type sched struct {
 	flavour int                    // rotates the error flavour of failing builders
 	lastExp map[string]string      // process -> last expired value its backend read returned
 	onFail  func(p string)         // called by a failing builder before it returns (every other failure): caller cancels
+	handed  []handedItem           // expired items the backend has handed out: what they say must never change
 	gateLog bool
 	gateSt  bool
+}
+
+// handedItem: an expired item returned by a backend Read (the Failover keeps it and asks it for the stale value LATER).
+type handedItem struct {
+	key   string
+	val   string
+	now   func() string // the item's value as it reads now
+	known bool          // already reported
+}
+
+// checkHanded re-reads every item handed out so far: an entry that was handed to a reader is a snapshot - recycling or
+// rewriting it behind the reader's back makes the reader serve a value that was never stored under its key.
+func (s *sched) checkHanded() {
+	s.mu.Lock()
+	items := s.handed
+	s.mu.Unlock()
+
+	for i := range items {
+		if items[i].known {
+			continue
+		}
+
+		if v := items[i].now(); v != items[i].val {
+			items[i].known = true
+			s.rec(Event{Ev: "entrymutated", K: items[i].key, V: v, Note: items[i].val})
+		}
+	}
+}
+
+func (s *sched) hand(key, val string, now func() string) {
+	s.mu.Lock()
+	s.handed = append(s.handed, handedItem{key: key, val: val, now: now})
+	s.mu.Unlock()
 }
 
 func newSched(km *KeyMap, u time.Duration, keys []string) *sched {
@@ -366,6 +400,8 @@ func (g *gateRW) Read(ctx context.Context, key []byte) (interface{}, error) {
 		defer g.s.serial.Unlock()
 	}
 
+	g.s.checkHanded()
+
 	v, err := g.inner.Read(ctx, key)
 	r := classifyAny(v, err)
 
@@ -373,6 +409,11 @@ func (g *gateRW) Read(ctx context.Context, key []byte) (interface{}, error) {
 		g.s.mu.Lock()
 		g.s.lastExp[p] = r.V
 		g.s.mu.Unlock()
+
+		var ex cache.ErrWithExpiredItem
+		if errors.As(err, &ex) {
+			g.s.hand(mk, r.V, func() string { return decAny(ex.Value()) })
+		}
 	}
 
 	g.s.rec(Event{Ev: "beRead", P: p, K: mk, C: r.Class, V: r.V, E: g.tick(r)})
@@ -439,6 +480,8 @@ func (g *gateRWOf) Read(ctx context.Context, key []byte) (string, error) {
 		defer g.s.serial.Unlock()
 	}
 
+	g.s.checkHanded()
+
 	v, err := g.inner.Read(ctx, key)
 
 	ev := Event{Ev: "beRead", P: p, K: mk}
@@ -454,6 +497,9 @@ func (g *gateRWOf) Read(ctx context.Context, key []byte) (string, error) {
 		g.s.mu.Lock()
 		g.s.lastExp[p] = ex.Value()
 		g.s.mu.Unlock()
+
+		item := ex
+		g.s.hand(mk, ex.Value(), func() string { return item.Value() })
 	case errors.Is(err, cache.ErrNotFound):
 		ev.C = "notfound"
 	default:
